@@ -977,3 +977,438 @@ Proof.
   - simp_st. apply (rl_fresh _ (cap s)); try reflexivity. exact (C_cap _ H).
   - unfold raux, saux. rsimp. simp_st. congruence.
 Qed.
+
+(** * Removing an entry from one of the five partitions *)
+Section RmPartition.
+  Variables (P GP U GQ Q : list nat) (e : nat).
+  Hypothesis Hnd : NoDup (ring5 P GP U GQ Q).
+
+  Let Hc := nodup_cnt _ e Hnd.
+
+  Ltac others :=
+    rewrite ring5_rm;
+    repeat match goal with
+           | |- context [rm e ?X] =>
+               rewrite (rm_notin e X) by (apply cnt_notin; lia)
+           end; reflexivity.
+
+  Lemma ring5_rm_P : In e P -> rm e (ring5 P GP U GQ Q) = ring5 (rm e P) GP U GQ Q.
+  Proof. intros Hi. apply cnt_in in Hi. pose proof Hc as H. rewrite cnt_ring5 in H. others. Qed.
+  Lemma ring5_rm_GP : In e GP -> rm e (ring5 P GP U GQ Q) = ring5 P (rm e GP) U GQ Q.
+  Proof. intros Hi. apply cnt_in in Hi. pose proof Hc as H. rewrite cnt_ring5 in H. others. Qed.
+  Lemma ring5_rm_U : In e U -> rm e (ring5 P GP U GQ Q) = ring5 P GP (rm e U) GQ Q.
+  Proof. intros Hi. apply cnt_in in Hi. pose proof Hc as H. rewrite cnt_ring5 in H. others. Qed.
+  Lemma ring5_rm_GQ : In e GQ -> rm e (ring5 P GP U GQ Q) = ring5 P GP U (rm e GQ) Q.
+  Proof. intros Hi. apply cnt_in in Hi. pose proof Hc as H. rewrite cnt_ring5 in H. others. Qed.
+  Lemma ring5_rm_Q : In e Q -> rm e (ring5 P GP U GQ Q) = ring5 P GP U GQ (rm e Q).
+  Proof. intros Hi. apply cnt_in in Hi. pose proof Hc as H. rewrite cnt_ring5 in H. others. Qed.
+End RmPartition.
+
+Lemma rm_ne_witness e y (l : list nat) : In y l -> y <> e -> rm e l <> [].
+Proof.
+  intros Hy Hne E. assert (Hi : In y (rm e l)) by (apply in_in_remove; assumption).
+  rewrite E in Hi. exact Hi.
+Qed.
+
+(** * evict_entry / reclaim on the list level: what changes *)
+Lemma evict_shape s cs b s' v : evict_entry s cs b = Ok (s', v) ->
+  saux s' = saux s /\ unused s' = unused s /\ infl s' = infl s /\
+  ((zprobe cs = Some v /\ prec s' = prec s /\ gprec s' = gprec s /\
+    gprobe s' = v :: gprobe s /\ probe s' = rm v (probe s)) \/
+   (zprec cs = Some v /\ prec s' = rm v (prec s) /\ gprec s' = v :: gprec s /\
+    gprobe s' = gprobe s /\ probe s' = probe s)).
+Proof.
+  unfold evict_entry. destruct (_ && _).
+  - destruct (zprobe cs) as [w|]; [|discriminate]. intros E; inversion E; subst.
+    repeat split. left. repeat split.
+  - destruct (zprec cs) as [w|]; [|discriminate]. intros E; inversion E; subst.
+    repeat split. right. repeat split.
+Qed.
+
+Lemma nth_error_split_len (l : list nat) i x : nth_error l i = Some x ->
+  exists l1 l2, l = l1 ++ x :: l2 /\ length l1 = i /\ length l2 = length l - i - 1.
+Proof.
+  intros H. destruct (nth_error_split l i H) as (l1 & l2 & E & Hl). exists l1, l2.
+  split; [exact E|]. split; [exact Hl|]. rewrite E, app_length. cbn [length]. lia.
+Qed.
+
+(* the search info of both levels describes the same entries *)
+Record cs_match (s : st) (cs : search) (rcs : rsearch) : Prop := {
+  M_zp : c_zprec rcs = zprec cs;  M_nzp : c_nzprec rcs = nzprec cs;
+  M_zq : c_zprobe rcs = zprobe cs; M_nzq : c_nzprobe rcs = nzprobe cs;
+  M_gp : c_gprec rcs = gprecP (prec s) (gprec s) (unused s) (gprobe s) (probe s);
+  M_gq : c_gprobe rcs = gprobeP (prec s) (gprec s) (unused s) (gprobe s) (probe s);
+  M_inp : forall v, zprec cs = Some v -> In v (prec s);
+  M_inq : forall v, zprobe cs = Some v -> In v (probe s)
+}.
+
+Lemma sim_evict r s cs rcs bias s' v :
+  Rl r (prec s) (gprec s) (unused s) (gprobe s) (probe s) (infl s) -> raux r = saux s ->
+  cs_match s cs rcs -> length (prec s) + length (probe s) < length (ring s) ->
+  evict_entry s cs bias = Ok (s', v) ->
+  exists r', r_evict_entry r rcs bias = ROk (r', v) /\
+             Rl r' (prec s') (gprec s') (unused s') (gprobe s') (probe s') (infl s') /\
+             raux r' = saux s'.
+Proof.
+  intros HRl Haux [M1 M2 M3 M4 M5 M6 M7 M8] Hroom Hev.
+  destruct (evict_shape _ _ _ _ _ Hev) as (Hsa & _).
+  destruct cs as [zp nzp zq nzq]. cbn [zprec nzprec zprobe nzprobe] in *.
+  destruct (rl_evict_entry r s rcs zp nzp zq nzq bias v s' HRl) as (r' & E & HRl' & Ha'); try assumption.
+  - unfold raux, saux in Haux. injection Haux as A _ _ _ _ _ _ _ _ _ _. exact A.
+  - exists r'. split; [exact E|]. split; [exact HRl'|]. rewrite Ha', Haux. symmetry. exact Hsa.
+Qed.
+
+Lemma sim_reclaim r s cs rcs s' d ev :
+  Rl r (prec s) (gprec s) (unused s) (gprobe s) (probe s) (infl s) -> raux r = saux s ->
+  cs_match s cs rcs -> length (prec s) + length (probe s) < length (ring s) ->
+  reclaim true s cs = Ok (s', d, ev) ->
+  exists r', r_reclaim r rcs = ROk (r', d, ev) /\
+             Rl r' (prec s') (gprec s') (unused s') (gprobe s') (probe s') (infl s') /\
+             raux r' = saux s'.
+Proof.
+  intros HRl Haux HM Hroom Hrec.
+  pose proof Haux as Haux0. aux_inv Haux.
+  unfold reclaim in Hrec. unfold r_reclaim.
+  rewrite (L_np _ _ _ _ _ _ _ HRl), (L_nq _ _ _ _ _ _ _ HRl), (L_nin _ _ _ _ _ _ _ HRl),
+    (L_ngq _ _ _ _ _ _ _ HRl), Acap, Adata.
+  set (busy := length (prec s) + length (probe s) + length (infl s)) in *.
+  destruct (Nat.ltb_spec busy (cap s)) as [Hlt|Hge].
+  - cbn [andb] in Hrec.
+    destruct (Nat.ltb_spec (length (unused s)) (cap s - busy)) as [|Hfree]; [discriminate|].
+    destruct (nth_error (unused s) (length (unused s) - (cap s - busy))) as [x|] eqn:Hn; [|discriminate].
+    inversion Hrec; subst s' d ev. clear Hrec.
+    destruct (nth_error_split_len _ _ _ Hn) as (l1 & l2 & EU & Hl1 & Hl2).
+    rewrite (M_gq _ _ _ HM).
+    replace (length (gprobe s) + cap s - 1 - busy) with (length (gprobe s) + length l2) by lia.
+    rewrite (ptr_reclaim r _ _ _ _ _ _ l1 x l2 HRl EU).
+    eexists. split; [reflexivity|]. split.
+    + simp_st. apply (Rl_ptr r); [reflexivity|exact HRl].
+    + unfold raux, saux. rsimp. simp_st. congruence.
+  - destruct (evict_entry s cs 0) as [[s1 v]|] eqn:Hev; [|discriminate].
+    inversion Hrec; subst s' d ev. clear Hrec.
+    destruct (sim_evict r s cs rcs 0 s1 v HRl Haux0 HM Hroom Hev) as (r1 & E & HRl1 & Ha1).
+    rewrite E. pose proof Ha1 as Ha1'. unfold raux, saux in Ha1'.
+    injection Ha1' as B1 B2 B3 B4 B5 B6 B7 B8 B9 B10 B11.
+    rewrite B4, B5.
+    eexists. split; [reflexivity|]. split.
+    + simp_st. apply (Rl_ptr r1); [reflexivity|exact HRl1].
+    + unfold raux, saux. rsimp. simp_st. congruence.
+Qed.
+
+Lemma raux_detach r0 e :
+  raux (r_add_inflight (r_remove (if split r0 =? e then rset_split (pv r0 e) r0 else r0) e) e)
+  = raux r0.
+Proof.
+  unfold r_add_inflight. destruct (split r0 =? e); rsimp;
+    match goal with |- context [if ?c then _ else _] => destruct c end; reflexivity.
+Qed.
+
+Lemma nodup_part_GP P GP U GQ Q : NoDup (ring5 P GP U GQ Q) -> NoDup GP.
+Proof.
+  intros H. apply (NoDup_count_occ Nat.eq_dec). intros x. fold (cnt GP x).
+  pose proof (nodup_cnt _ x H) as Hc. rewrite cnt_ring5 in Hc. lia.
+Qed.
+Lemma nodup_part_GQ P GP U GQ Q : NoDup (ring5 P GP U GQ Q) -> NoDup GQ.
+Proof.
+  intros H. apply (NoDup_count_occ Nat.eq_dec). intros x. fold (cnt GQ x).
+  pose proof (nodup_cnt _ x H) as Hc. rewrite cnt_ring5 in Hc. lia.
+Qed.
+Lemma nodup_part_U P GP U GQ Q : NoDup (ring5 P GP U GQ Q) -> NoDup U.
+Proof.
+  intros H. apply (NoDup_count_occ Nat.eq_dec). intros x. fold (cnt U x).
+  pose proof (nodup_cnt _ x H) as Hc. rewrite cnt_ring5 in Hc. lia.
+Qed.
+
+Lemma sim_reuse_ghost_prec r s e d n :
+  Rl r (prec s) (gprec s) (unused s) (gprobe s) (probe s) (infl s) -> raux r = saux s ->
+  In e (gprec s) -> ngprec r = S n -> (exists y, In y (ring s) /\ y <> e) ->
+  let s' := reuse_ghost (set_gprec (rm e (gprec s)) s) e d in
+  let r' := r_reuse_ghost (rset_ngprec n (rset_data (upd (rdata r) e d) r)) e in
+  Rl r' (prec s') (gprec s') (unused s') (gprobe s') (probe s') (infl s') /\ raux r' = saux s'.
+Proof.
+  intros HRl Haux Hin Hcnt (y & Hy & Hye). cbn zeta.
+  assert (HndL : NoDup (ring5 (prec s) (gprec s) (unused s) (gprobe s) (probe s)))
+    by (apply (nodup_app_l _ _ (L_nd _ _ _ _ _ _ _ HRl))).
+  set (r0 := rset_ngprec n (rset_data (upd (rdata r) e d) r)).
+  pose proof (raux_detach r0 e) as Hd. unfold r_reuse_ghost, reuse_ghost. simp_st.
+  set (r1 := r_add_inflight (r_remove (if split r0 =? e then rset_split (pv r0 e) r0 else r0) e) e) in *.
+  split.
+  - apply (Rl_ptr r1); [reflexivity|]. unfold r1.
+    apply (rl_detach r r0 (prec s) (gprec s) (unused s) (gprobe s) (probe s) (infl s) e);
+      try reflexivity; try (apply HRl); try exact HRl.
+    + unfold ring5. apply in_or_app. right. apply in_or_app. left. exact Hin.
+    + symmetry. apply ring5_rm_GP; assumption.
+    + apply (rm_ne_witness e y); assumption.
+    + unfold r0. rsimp. pose proof (length_rm_in _ _ (nodup_part_GP _ _ _ _ _ HndL) Hin).
+      rewrite (L_ngp _ _ _ _ _ _ _ HRl) in Hcnt. lia.
+  - unfold raux in Hd. injection Hd as D1 D2 D3 D4 D5 D6 D7 D8 D9 D10 D11.
+    aux_inv Haux. unfold raux, saux. rsimp. simp_st.
+    rewrite D1, D2, D3, D4, D5, D6, D7, D8, D9, D10, D11. unfold r0. rsimp. congruence.
+Qed.
+
+Lemma sim_reuse_ghost_probe r s e d n :
+  Rl r (prec s) (gprec s) (unused s) (gprobe s) (probe s) (infl s) -> raux r = saux s ->
+  In e (gprobe s) -> ngprobe r = S n -> (exists y, In y (ring s) /\ y <> e) ->
+  let s' := reuse_ghost (set_gprobe (rm e (gprobe s)) s) e d in
+  let r' := r_reuse_ghost (rset_ngprobe n (rset_data (upd (rdata r) e d) r)) e in
+  Rl r' (prec s') (gprec s') (unused s') (gprobe s') (probe s') (infl s') /\ raux r' = saux s'.
+Proof.
+  intros HRl Haux Hin Hcnt (y & Hy & Hye). cbn zeta.
+  assert (HndL : NoDup (ring5 (prec s) (gprec s) (unused s) (gprobe s) (probe s)))
+    by (apply (nodup_app_l _ _ (L_nd _ _ _ _ _ _ _ HRl))).
+  set (r0 := rset_ngprobe n (rset_data (upd (rdata r) e d) r)).
+  pose proof (raux_detach r0 e) as Hd. unfold r_reuse_ghost, reuse_ghost. simp_st.
+  set (r1 := r_add_inflight (r_remove (if split r0 =? e then rset_split (pv r0 e) r0 else r0) e) e) in *.
+  split.
+  - apply (Rl_ptr r1); [reflexivity|]. unfold r1.
+    apply (rl_detach r r0 (prec s) (gprec s) (unused s) (gprobe s) (probe s) (infl s) e);
+      try reflexivity; try (apply HRl); try exact HRl.
+    + unfold ring5. rewrite !in_app_iff, <- !in_rev. tauto.
+    + symmetry. apply ring5_rm_GQ; assumption.
+    + apply (rm_ne_witness e y); assumption.
+    + unfold r0. rsimp. pose proof (length_rm_in _ _ (nodup_part_GQ _ _ _ _ _ HndL) Hin).
+      rewrite (L_ngq _ _ _ _ _ _ _ HRl) in Hcnt. lia.
+  - unfold raux in Hd. injection Hd as D1 D2 D3 D4 D5 D6 D7 D8 D9 D10 D11.
+    aux_inv Haux. unfold raux, saux. rsimp. simp_st.
+    rewrite D1, D2, D3, D4, D5, D6, D7, D8, D9, D10, D11. unfold r0. rsimp. congruence.
+Qed.
+
+(** * get_missed_entry *)
+Lemma evict_unused_indep s cs b u :
+  evict_entry (set_unused u s) cs b =
+  match evict_entry s cs b with
+  | Ok (s', v) => Ok (set_unused u s', v)
+  | Fault f => Fault f
+  end.
+Proof.
+  unfold evict_entry. simp_st. destruct (_ && _).
+  - destruct (zprobe cs); reflexivity.
+  - destruct (zprec cs); reflexivity.
+Qed.
+
+Lemma rl_missed_tail r P GP u' e GQ Q F :
+  Rl r P GP (u' ++ [e]) GQ Q F -> (exists y, In y (ring5 P GP (u' ++ [e]) GQ Q) /\ y <> e) ->
+  Rl (r_add_inflight (r_remove (if split r =? e then rset_split (pv r e) r else r) e) e)
+     P GP u' GQ Q (F ++ [e]).
+Proof.
+  intros HRl (y & Hy & Hye).
+  assert (HndL : NoDup (ring5 P GP (u' ++ [e]) GQ Q)) by (apply (nodup_app_l _ _ (L_nd _ _ _ _ _ _ _ HRl))).
+  assert (Hu : rm e (u' ++ [e]) = u').
+  { apply rm_snoc. pose proof (nodup_cnt _ e (nodup_part_U _ _ _ _ _ HndL)) as Hc.
+    rewrite cnt_snoc_eq in Hc. lia. }
+  apply (rl_detach r r P GP (u' ++ [e]) GQ Q F e); try reflexivity; try (apply HRl); try exact HRl.
+  - unfold ring5. rewrite !in_app_iff. right. right. left. right. left. reflexivity.
+  - rewrite (ring5_rm_U _ _ _ _ _ e HndL), Hu; [reflexivity|].
+    apply in_or_app. right. left. reflexivity.
+  - apply (rm_ne_witness e y); assumption.
+Qed.
+
+(* what get_missed_entry does once the entry to recycle is chosen *)
+Definition missed_tail (s1 : st) (k : N) (cs : search) (e : nat) : res (st * nat * list (nat * nat)) :=
+  let fill :=
+    match data s1 e with
+    | Some _ => Ok (s1, [])
+    | None =>
+        match evict_entry s1 cs 1 with
+        | Fault f => Fault f
+        | Ok (s2, v) =>
+            Ok (set_data (upd (upd (data s2) e (data s2 v)) v None) s2, [(v, ref s2 v)])
+        end
+    end in
+  match fill with
+  | Fault f => Fault f
+  | Ok (s3, ev) =>
+      Ok (set_est (upd (est s3) e SProbe)
+            (set_key (upd (key s3) e k) (set_infl (infl s3 ++ [e]) s3)), e, ev)
+  end.
+
+Definition r_missed_tail (r1 : rst) (k : N) (cs : rsearch) (idx : nat)
+  : rres (rst * nat * list (nat * nat)) :=
+  let fill :=
+    match rdata r1 idx with
+    | Some _ => ROk (r1, [])
+    | None =>
+        match r_evict_entry r1 cs 1 with
+        | RFault f => RFault f
+        | ROk (r2, v) =>
+            ROk (rset_data (upd (upd (rdata r2) idx (rdata r2 v)) v None) r2, [(v, rref r2 v)])
+        end
+    end in
+  match fill with
+  | RFault f => RFault f
+  | ROk (r3, ev) =>
+      let r4 := if split r3 =? idx then rset_split (pv r3 idx) r3 else r3 in
+      let r5 := r_add_inflight (r_remove r4 idx) idx in
+      ROk (rset_est (upd (rest r5) idx SProbe) (rset_key (upd (rkey r5) idx k) r5), idx, ev)
+  end.
+
+Lemma sim_missed_core r1 s1 k cs rcs e0 u' s' ev :
+  unused s1 = u' ->
+  let sp := set_unused (u' ++ [e0]) s1 in
+  Rl r1 (prec sp) (gprec sp) (unused sp) (gprobe sp) (probe sp) (infl sp) -> raux r1 = saux s1 ->
+  cs_match sp cs rcs -> length (prec s1) + length (probe s1) < length (ring sp) ->
+  2 <= length (ring sp) ->
+  missed_tail s1 k cs e0 = Ok (s', e0, ev) ->
+  exists r', r_missed_tail r1 k rcs e0 = ROk (r', e0, ev) /\
+             Rl r' (prec s') (gprec s') (unused s') (gprobe s') (probe s') (infl s') /\
+             raux r' = saux s'.
+Proof.
+  intros Hu sp HRl Haux HM Hroom H2 Hm.
+  assert (Hauxp : raux r1 = saux sp) by (rewrite Haux; reflexivity).
+  pose proof Haux as Haux0. aux_inv Haux.
+  unfold missed_tail in Hm. unfold r_missed_tail. rewrite Adata.
+  assert (Hwit : forall P GP GQ Q, 2 <= length (ring5 P GP (u' ++ [e0]) GQ Q) ->
+                 NoDup (ring5 P GP (u' ++ [e0]) GQ Q) ->
+                 exists y, In y (ring5 P GP (u' ++ [e0]) GQ Q) /\ y <> e0).
+  { intros P GP GQ Q Hlen Hnd.
+    assert (Hin : In e0 (ring5 P GP (u' ++ [e0]) GQ Q)).
+    { unfold ring5. rewrite !in_app_iff. right. right. left. right. left. reflexivity. }
+    pose proof (length_rm_in _ _ Hnd Hin) as Hl.
+    destruct (rm e0 (ring5 P GP (u' ++ [e0]) GQ Q)) as [|y m] eqn:E; [cbn [length] in Hl; lia|].
+    exists y. assert (Hy : In y (rm e0 (ring5 P GP (u' ++ [e0]) GQ Q))) by (rewrite E; left; reflexivity).
+    apply in_remove in Hy. exact Hy. }
+  destruct (data s1 e0) as [t|] eqn:Hd.
+  - (* the recycled entry brings its own buffer *)
+    inversion Hm; subst s' ev. clear Hm.
+    eexists. split; [reflexivity|]. split.
+    + simp_st. rewrite Hu.
+      eapply Rl_ptr; [|apply (rl_missed_tail r1 _ _ u' e0 _ _ _ HRl)]; [reflexivity|].
+      apply Hwit; [exact H2|]. apply (nodup_app_l _ _ (L_nd _ _ _ _ _ _ _ HRl)).
+    + pose proof (raux_detach r1 e0) as Hd1.
+      set (r5 := r_add_inflight (r_remove (if split r1 =? e0 then rset_split (pv r1 e0) r1 else r1) e0) e0) in *.
+      unfold raux in Hd1. injection Hd1 as D1 D2 D3 D4 D5 D6 D7 D8 D9 D10 D11.
+      unfold raux, saux. rsimp. simp_st. rewrite D1, D2, D3, D4, D5, D6, D7, D8, D9, D10, D11.
+      congruence.
+  - (* a cached entry is evicted for its buffer *)
+    destruct (evict_entry s1 cs 1) as [[s2 v]|] eqn:Hev; [|discriminate].
+    inversion Hm; subst s' ev. clear Hm.
+    assert (Hevp : evict_entry sp cs 1 = Ok (set_unused (u' ++ [e0]) s2, v)).
+    { unfold sp. rewrite evict_unused_indep, Hev. reflexivity. }
+    destruct (sim_evict r1 sp cs rcs 1 _ v HRl Hauxp HM Hroom Hevp) as (r2 & E & HRl2 & Ha2).
+    rewrite E. pose proof Ha2 as Ha2'. unfold raux, saux in Ha2'. simp_st.
+    injection Ha2' as B1 B2 B3 B4 B5 B6 B7 B8 B9 B10 B11.
+    rewrite B4, B5.
+    destruct (evict_shape _ _ _ _ _ Hev) as (_ & Hu2 & _).
+    set (r3 := rset_data (upd (upd (data s2) e0 (data s2 v)) v None) r2).
+    assert (HRl3 : Rl r3 (prec s2) (gprec s2) (u' ++ [e0]) (gprobe s2) (probe s2) (infl s2))
+      by (apply (Rl_ptr r2); [reflexivity|exact HRl2]).
+    eexists. split; [reflexivity|]. split.
+    + simp_st. rewrite Hu2, Hu.
+      eapply Rl_ptr; [|apply (rl_missed_tail r3 _ _ u' e0 _ _ _ HRl3)]; [reflexivity|].
+      apply Hwit; [|apply (nodup_app_l _ _ (L_nd _ _ _ _ _ _ _ HRl3))].
+      (* the ring has the same length as before the eviction *)
+      destruct (evict_shape _ _ _ _ _ Hev) as (_ & _ & _ & Hsh).
+      assert (Hlen : length (ring5 (prec s2) (gprec s2) (u' ++ [e0]) (gprobe s2) (probe s2)) =
+                     length (ring sp)).
+      { pose proof (nodup_app_l _ _ (L_nd _ _ _ _ _ _ _ HRl)) as Hnd0. unfold sp in *. simp_st.
+        unfold ring, ring5. simp_st. rewrite !app_length, !rev_length.
+        destruct Hsh as [(Hz & E1 & E2 & E3 & E4)|(Hz & E1 & E2 & E3 & E4)];
+          rewrite E1, E2, E3, E4; cbn [length].
+        - pose proof (M_inq _ _ _ HM v Hz) as Hvin. simp_st.
+          assert (NoDup (probe s1)).
+          { apply (NoDup_count_occ Nat.eq_dec). intros x. fold (cnt (probe s1) x).
+            pose proof (nodup_cnt _ x Hnd0) as Hc. rewrite cnt_ring5 in Hc. lia. }
+          pose proof (length_rm_in _ _ H Hvin). lia.
+        - pose proof (M_inp _ _ _ HM v Hz) as Hvin. simp_st.
+          assert (NoDup (prec s1)).
+          { apply (NoDup_count_occ Nat.eq_dec). intros x. fold (cnt (prec s1) x).
+            pose proof (nodup_cnt _ x Hnd0) as Hc. rewrite cnt_ring5 in Hc. lia. }
+          pose proof (length_rm_in _ _ H Hvin). lia. }
+      rewrite Hlen. exact H2.
+    + pose proof (raux_detach r3 e0) as Hd1.
+      set (r5 := r_add_inflight (r_remove (if split r3 =? e0 then rset_split (pv r3 e0) r3 else r3) e0) e0) in *.
+      unfold raux in Hd1. injection Hd1 as D1 D2 D3 D4 D5 D6 D7 D8 D9 D10 D11.
+      unfold raux, saux. rsimp. simp_st. rewrite D1, D2, D3, D4, D5, D6, D7, D8, D9, D10, D11.
+      unfold r3. rsimp. congruence.
+Qed.
+
+Lemma ring_len_set_unused s u :
+  length (ring (set_unused u s)) =
+  length (prec s) + length (gprec s) + length u + length (gprobe s) + length (probe s).
+Proof. unfold ring. simp_st. rewrite !app_length, !rev_length. lia. Qed.
+
+Lemma ring_len s :
+  length (ring s) =
+  length (prec s) + length (gprec s) + length (unused s) + length (gprobe s) + length (probe s).
+Proof. unfold ring. rewrite !app_length, !rev_length. lia. Qed.
+
+Lemma sim_missed r s k cs rcs s' e ev :
+  Rl r (prec s) (gprec s) (unused s) (gprobe s) (probe s) (infl s) -> raux r = saux s ->
+  cs_match s cs rcs ->
+  c_eprec rcs = eprecP (prec s) (gprec s) (unused s) (gprobe s) (probe s) ->
+  c_eprobe rcs = eprobeP (prec s) (gprec s) (unused s) (gprobe s) (probe s) ->
+  length (prec s) + length (probe s) < length (ring s) -> 2 <= length (ring s) ->
+  missed s k cs = Ok (s', e, ev) ->
+  exists r', r_get_missed r k rcs = ROk (r', e, ev) /\
+             Rl r' (prec s') (gprec s') (unused s') (gprobe s') (probe s') (infl s') /\
+             raux r' = saux s'.
+Proof.
+  intros HRl Haux HM Eep Eeq Hroom H2 Hm.
+  destruct (missed_select r _ _ _ _ _ _ HRl) as (SelA & SelB & SelC). cbn zeta in SelA, SelB, SelC.
+  unfold missed, take_missed in Hm.
+  assert (Hget : forall r1 idx,
+            (if nx r (c_eprobe rcs) =? c_eprec rcs
+             then if negb (ngprobe r =? 0) then (rset_ngprobe (ngprobe r - 1) r, nx r (c_eprobe rcs))
+                  else if negb (ngprec r =? 0) then (rset_ngprec (ngprec r - 1) r, c_eprobe rcs)
+                  else (r, c_eprobe rcs)
+             else (r, c_eprobe rcs)) = (r1, idx) ->
+            r_get_missed r k rcs = r_missed_tail r1 k rcs idx).
+  { intros r1 idx E. unfold r_get_missed. rewrite E. reflexivity. }
+  rewrite Eep, Eeq in Hget.
+  destruct (unsnoc (unused s)) as [[u' e0]|] eqn:Hun.
+  - apply unsnoc_some in Hun.
+    change (missed_tail (set_unused u' s) k cs e0 = Ok (s', e, ev)) in Hm.
+    assert (e = e0).
+    { unfold missed_tail in Hm. destruct (match data (set_unused u' s) e0 with Some _ => _ | None => _ end) as [[? ?]|];
+        inversion Hm; reflexivity. }
+    subst e0. rewrite (Hget r e (SelA u' e Hun)).
+    apply (sim_missed_core r (set_unused u' s) k cs rcs e u'); try assumption; try reflexivity; simp_st.
+    + rewrite <- Hun. exact HRl.
+    + destruct HM as [M1 M2 M3 M4 M5 M6 M7 M8]. constructor; simp_st; rewrite <- ?Hun; assumption.
+    + rewrite ring_len_set_unused. simp_st. rewrite <- Hun. rewrite ring_len in Hroom. exact Hroom.
+    + rewrite ring_len_set_unused. simp_st. rewrite <- Hun. rewrite ring_len in H2. exact H2.
+  - apply unsnoc_none in Hun.
+    destruct (unsnoc (gprobe s)) as [[g' e0]|] eqn:Hug.
+    + apply unsnoc_some in Hug.
+      change (missed_tail (set_gprobe g' s) k cs e0 = Ok (s', e, ev)) in Hm.
+      assert (e = e0).
+      { unfold missed_tail in Hm. destruct (match data (set_gprobe g' s) e0 with Some _ => _ | None => _ end) as [[? ?]|];
+          inversion Hm; reflexivity. }
+      subst e0. destruct (SelB g' e Hun Hug) as [Esel HRl1]. rewrite (Hget _ _ Esel).
+      apply (sim_missed_core _ (set_gprobe g' s) k cs rcs e []); try assumption; try reflexivity; simp_st;
+        match goal with
+        | |- Rl _ _ _ _ _ _ _ => exact HRl1
+        | |- cs_match _ _ _ =>
+            destruct HM as [M1 M2 M3 M4 M5 M6 M7 M8]; constructor; simp_st; try assumption;
+            [ rewrite M5, Hun, Hug; unfold gprecP; rewrite rev_app_distr; reflexivity
+            | rewrite M6, Hun, Hug; unfold gprobeP; rewrite rev_app_distr; reflexivity ]
+        | |- _ < _ =>
+            rewrite ring_len_set_unused; simp_st; rewrite ring_len, Hun, Hug, app_length in Hroom;
+            cbn [length app] in *; lia
+        | |- _ <= _ =>
+            rewrite ring_len_set_unused; simp_st; rewrite ring_len, Hun, Hug, app_length in H2;
+            cbn [length app] in *; lia
+        end.
+    + apply unsnoc_none in Hug.
+      destruct (unsnoc (gprec s)) as [[g' e0]|] eqn:Hup; [|discriminate].
+      apply unsnoc_some in Hup.
+      change (missed_tail (set_gprec g' s) k cs e0 = Ok (s', e, ev)) in Hm.
+      assert (e = e0).
+      { unfold missed_tail in Hm. destruct (match data (set_gprec g' s) e0 with Some _ => _ | None => _ end) as [[? ?]|];
+          inversion Hm; reflexivity. }
+      subst e0. destruct (SelC g' e Hun Hug Hup) as [Esel HRl1]. rewrite (Hget _ _ Esel).
+      apply (sim_missed_core _ (set_gprec g' s) k cs rcs e []); try assumption; try reflexivity; simp_st;
+        match goal with
+        | |- Rl _ _ _ _ _ _ _ => rewrite Hug; exact HRl1
+        | |- cs_match _ _ _ =>
+            destruct HM as [M1 M2 M3 M4 M5 M6 M7 M8]; constructor; simp_st; try assumption;
+            [ rewrite M5, Hun, Hup; unfold gprecP; rewrite <- !app_assoc; reflexivity
+            | rewrite M6, Hun, Hup; unfold gprobeP; rewrite <- !app_assoc; reflexivity ]
+        | |- _ < _ =>
+            rewrite ring_len_set_unused; simp_st; rewrite ring_len, Hun, Hup, app_length in Hroom;
+            cbn [length app] in *; lia
+        | |- _ <= _ =>
+            rewrite ring_len_set_unused; simp_st; rewrite ring_len, Hun, Hup, app_length in H2;
+            cbn [length app] in *; lia
+        end.
+Qed.
